@@ -48,7 +48,8 @@ std::vector<Field> build()
 {
     std::vector<Field> F;
     using Tr = dj::track;
-    auto str_field = [&](const std::string& name, std::optional<std::string> dj::track_snapshot::*mem, std::function<void(Tr&, std::optional<std::string>)> set) {
+    // `set` is the std::optional<std::string> overload, `set_plain` the std::string convenience overload (used for one value)
+    auto str_field = [&](const std::string& name, std::optional<std::string> dj::track_snapshot::*mem, std::function<void(Tr&, std::optional<std::string>)> set, std::function<void(Tr&, std::string)> set_plain) {
         Field f;
         f.name = name;
         f.facts = {name};
@@ -60,7 +61,8 @@ std::vector<Field> build()
             FieldValue fv;
             fv.desc = v.d;
             auto val = v.v;
-            fv.set = [set, val](Tr& t) { set(t, val); };
+            if (std::string(v.d) == "multi-byte UTF-8") fv.set = [set_plain, val](Tr& t) { set_plain(t, *val); };
+            else fv.set = [set, val](Tr& t) { set(t, val); };
             fv.put = [mem, val](dj::track_snapshot& sn) { sn.*mem = val; };
             if (!val) fv.allowed_v1 = fv.allowed_v2 = {NONE};
             else if (val->empty()) fv.allowed_v1 = fv.allowed_v2 = {q(""), NONE};  // "" vs absent: the formats cannot always tell them apart
@@ -70,13 +72,13 @@ std::vector<Field> build()
         }
         F.push_back(f);
     };
-    str_field("album", &dj::track_snapshot::album, [](Tr& t, std::optional<std::string> v) { t.set_album(v); });
-    str_field("artist", &dj::track_snapshot::artist, [](Tr& t, std::optional<std::string> v) { t.set_artist(v); });
-    str_field("comment", &dj::track_snapshot::comment, [](Tr& t, std::optional<std::string> v) { t.set_comment(v); });
-    str_field("composer", &dj::track_snapshot::composer, [](Tr& t, std::optional<std::string> v) { t.set_composer(v); });
-    str_field("genre", &dj::track_snapshot::genre, [](Tr& t, std::optional<std::string> v) { t.set_genre(v); });
-    str_field("publisher", &dj::track_snapshot::publisher, [](Tr& t, std::optional<std::string> v) { t.set_publisher(v); });
-    str_field("title", &dj::track_snapshot::title, [](Tr& t, std::optional<std::string> v) { t.set_title(v); });
+    str_field("album", &dj::track_snapshot::album, [](Tr& t, std::optional<std::string> v) { t.set_album(v); }, [](Tr& t, std::string v) { t.set_album(std::move(v)); });
+    str_field("artist", &dj::track_snapshot::artist, [](Tr& t, std::optional<std::string> v) { t.set_artist(v); }, [](Tr& t, std::string v) { t.set_artist(std::move(v)); });
+    str_field("comment", &dj::track_snapshot::comment, [](Tr& t, std::optional<std::string> v) { t.set_comment(v); }, [](Tr& t, std::string v) { t.set_comment(std::move(v)); });
+    str_field("composer", &dj::track_snapshot::composer, [](Tr& t, std::optional<std::string> v) { t.set_composer(v); }, [](Tr& t, std::string v) { t.set_composer(std::move(v)); });
+    str_field("genre", &dj::track_snapshot::genre, [](Tr& t, std::optional<std::string> v) { t.set_genre(v); }, [](Tr& t, std::string v) { t.set_genre(std::move(v)); });
+    str_field("publisher", &dj::track_snapshot::publisher, [](Tr& t, std::optional<std::string> v) { t.set_publisher(v); }, [](Tr& t, std::string v) { t.set_publisher(std::move(v)); });
+    str_field("title", &dj::track_snapshot::title, [](Tr& t, std::optional<std::string> v) { t.set_title(v); }, [](Tr& t, std::string v) { t.set_title(std::move(v)); });
 
     // `put` of the value most recently added to f
     auto put = [&](Field& f, std::function<void(dj::track_snapshot&)> p) { f.values.back().put = std::move(p); };
@@ -438,8 +440,19 @@ struct RegisterTrackOps
         World::register_op("set_slot", [](World& w, const Op& op) {
             auto& t = w.tracks.at((size_t)op.i.at(0));
             int idx = (int)op.i.at(2);
-            if (op.s.at(0) == "hot_cue_at") t.set_hot_cue_at(idx, hot_cue_slot_values().at((size_t)op.i.at(1)).cue);
-            else t.set_loop_at(idx, loop_slot_values().at((size_t)op.i.at(1)).loop);
+            // odd slots take the convenience overload without std::optional when there is a value
+            if (op.s.at(0) == "hot_cue_at")
+            {
+                auto& v = hot_cue_slot_values().at((size_t)op.i.at(1)).cue;
+                if (v && idx % 2) t.set_hot_cue_at(idx, *v);
+                else t.set_hot_cue_at(idx, v);
+            }
+            else
+            {
+                auto& v = loop_slot_values().at((size_t)op.i.at(1)).loop;
+                if (v && idx % 2) t.set_loop_at(idx, *v);
+                else t.set_loop_at(idx, v);
+            }
         });
     }
 } register_track_ops;
